@@ -75,10 +75,6 @@ Definition put (ps : pstate_) (i : nat) (s : slot) : pstate_ := mk_ps (set_slot 
 Definition err : str := lit "ERR".
 Definition exc_url_error : str := lit "EXC url_error".
 
-(* moved-from objects are left in the empty state; a moved-from url loses its query object
-   to the destination (move construction / assignment) *)
-Definition moved_from_keep_sp (s : slot) : slot := mk_slot None (s_has_sp s) [].
-Definition moved_from_lose_sp : slot := mk_slot None false [].
 
 Definition sp_named_op (name : str) (args : list (enc * list N)) (usps : list (list pair_t)) (k : option nat) : option spop :=
   match args with
@@ -134,10 +130,7 @@ Definition exec (ps : pstate_) (toks : list str) : pstate_ * str :=
             (ps, lit "can_parse " ++ bit (is_some r) ++ lit " agree=1 codes=1 same=1 untouched=1")
           else if tok_is c "parse" then
             let sl := get_slot st s in
-            let sl' := match r with
-                       | Some u => resync sl (Some u)
-                       | None => mk_slot None (s_has_sp sl) (s_sp sl)
-                       end in
+            let sl' := slot_after_parse sl r in
             let ps' := put ps s sl' in
             (ps', lit "parse " ++ (if is_some r then lit "ok" else lit "fail") ++ sp_ (st_str ps' s))
           else
@@ -163,7 +156,7 @@ Definition exec (ps : pstate_) (toks : list str) : pstate_ * str :=
             match bu with
             | None => (ps, lit "parse fail" ++ sp_ (st_str ps s))
             | Some _ =>
-              let sl' := match r with Some u => resync sl (Some u) | None => mk_slot None (s_has_sp sl) (s_sp sl) end in
+              let sl' := slot_after_parse sl r in
               let ps' := put ps s sl' in
               (ps', lit "parse " ++ (if is_some r then lit "ok" else lit "fail") ++ sp_ (st_str ps' s))
             end
@@ -193,7 +186,7 @@ Definition exec (ps : pstate_) (toks : list str) : pstate_ * str :=
       match args with
       | [ts] => match slot_of ts with
                 | Some s => let sl := get_slot st s in
-                            let ps' := put ps s (mk_slot None (s_has_sp sl) []) in (ps', lit "clear" ++ sp_ (st_str ps' s))
+                            let ps' := put ps s (slot_clear sl) in (ps', lit "clear" ++ sp_ (st_str ps' s))
                 | None => (ps, err) end
       | _ => (ps, err)
       end
@@ -205,20 +198,10 @@ Definition exec (ps : pstate_) (toks : list str) : pstate_ * str :=
         | Some d, Some s =>
           let sd := get_slot st d in let ss := get_slot st s in
           if (d =? s)%nat && negb (tok_is c "copy") then (ps, err) else
-          let '(sd', ss') :=
-            if tok_is c "copy" then
-              (* memberwise copy; the destination keeps its own query object, refilled *)
-              (mk_slot (s_url ss) (s_has_sp sd)
-                 (if s_has_sp sd then (if s_has_sp ss then s_sp ss else parse_query_list (s_url ss)) else []), ss)
-            else if tok_is c "copyctor" then (mk_slot (s_url ss) false [], ss)
-            else if tok_is c "move" || tok_is c "movector" then
-              (mk_slot (s_url ss) (s_has_sp ss) (s_sp ss), moved_from_lose_sp)
-            else if tok_is c "safe_assign" then
-              (if s_has_sp sd then
-                 (mk_slot (s_url ss) true (if s_has_sp ss then s_sp ss else parse_query_list (s_url ss)),
-                  moved_from_keep_sp ss)
-               else (mk_slot (s_url ss) false [], moved_from_keep_sp ss))
-            else (ss, sd) in
+          let o := if tok_is c "copy" then OCopyAssign else if tok_is c "copyctor" then OCopyCtor
+                   else if tok_is c "move" then OMoveAssign else if tok_is c "movector" then OMoveCtor
+                   else if tok_is c "safe_assign" then OSafeAssign else OSwap in
+          let '(sd', ss') := pair_op o sd ss in
           let ps' := put (put ps d sd') s (if (d =? s)%nat then sd' else ss') in
           (ps', c ++ sp_ (st_str ps' d) ++ lit " | " ++ st_str ps' s)
         | _, _ => (ps, err)
@@ -237,7 +220,7 @@ Definition exec (ps : pstate_) (toks : list str) : pstate_ * str :=
           let base := match slot_of tb with Some b => Some (s_url (get_slot st b)) | None => None end in
           let r := do_parse idna EU8 href base in
           let sd := get_slot st d in
-          let sd' := match r with Some u => resync sd (Some u) | None => mk_slot None (s_has_sp sd) (s_sp sd) end in
+          let sd' := slot_after_parse sd r in
           let ps' := put ps d sd' in
           let same := match src, r with Some a, Some b => url_eqb a b | _, _ => false end in
           let quirk := match src with
@@ -273,7 +256,7 @@ Definition exec (ps : pstate_) (toks : list str) : pstate_ * str :=
         match slot_of ts with
         | Some s =>
             let sl := get_slot st s in
-            let sl' := if s_has_sp sl then sl else mk_slot (s_url sl) true (parse_query_list (s_url sl)) in
+            let sl' := slot_sp_create sl in
             let ps' := put ps s sl' in (ps', lit "sp" ++ sp_ (st_str ps' s))
         | None => (ps, err)
         end
@@ -286,7 +269,7 @@ Definition exec (ps : pstate_) (toks : list str) : pstate_ * str :=
         match slot_of ts with
         | Some s =>
           let sl := get_slot st s in
-          let sl := if s_has_sp sl then sl else mk_slot (s_url sl) true (parse_query_list (s_url sl)) in
+          let sl := slot_sp_create sl in
           if is_none (s_url sl) then (put ps s sl, lit "sp valid=0 skipped") else
           if tok_is name "snapshot" then
             match rest with
@@ -311,8 +294,7 @@ Definition exec (ps : pstate_) (toks : list str) : pstate_ * str :=
           match op with
           | None => (ps, err)
           | Some op =>
-              let '(l', upd, extra) := apply_spop (s_sp sl) op in
-              let sl' := if upd then update_from_list sl l' else mk_slot (s_url sl) true l' in
+              let '(sl', extra, l') := slot_sp_apply sl op in
               let ps' := put ps s sl' in
               (ps', lit "sp" ++ sp_ (st_str ps' s) ++ extra ++ lit " spstr=" ++ hx (urlencoded_serialize l') ++ sp_ (usp_state_str l'))
           end
